@@ -48,3 +48,26 @@ Proof.
   - intros _. now apply N.eqb_eq.
   - destruct (rc_empty r || rc_as_error r); discriminate.
 Qed.
+
+(* behind any framing the client ends in exactly one of its result classes ... *)
+Lemma client_framed_total f r :
+  go_client_framed f r = FRTransport \/ go_client_framed f r = FRRead \/
+  exists c, go_client_framed f r = FRParsed c /\ f = FrComplete /\
+    ((rc_status r < 400)%N -> c = CResp \/ c = CErrDecode) /\
+    ((400 <= rc_status r)%N -> c = CErrValidation \/ c = CErrSebuf \/ c = CErrOther).
+Proof.
+  destruct f; cbn; auto. right. right.
+  destruct (client_total r) as [c [E [H1 H2]]].
+  exists c. rewrite E. repeat split; assumption.
+Qed.
+
+(* ... and it hands a response value (or a typed sebuf error) to the caller only when net/http
+   delivered the whole announced body: nothing is built from a response that was cut short or whose
+   framing could not be read, whatever its status *)
+Lemma client_framed_value_needs_complete f r c :
+  go_client_framed f r = FRParsed c -> f = FrComplete /\ c = go_client_parse r.
+Proof. destruct f; cbn; intro H; try discriminate. now inversion H. Qed.
+
+Lemma client_framed_cut_is_error f r : f <> FrComplete ->
+  go_client_framed f r = FRTransport \/ go_client_framed f r = FRRead.
+Proof. destruct f; cbn; intro H; auto. now contradiction H. Qed.
